@@ -350,3 +350,211 @@ def value_facts(v):
                 "norm": ty_str(enc_ty(norm))}
     except Exception as e:  # noqa
         return {"error": "%s: %s" % (type(e).__name__, str(e)[:100])}
+
+
+# --------------------------------------------------------------------------
+# "how the operand got its value": binding forms (search-only stream; CPython's own execution is the oracle)
+#
+# A case is (form, stale, stmt, op, ca, sa, cb, sb): two variables `a` and `b` receive the values `sa` / `sb` (source
+# text of representatives of the core classes ca / cb) through the binding form, then the operator / comparison under
+# test is applied to them.  `stale` puts `a = <value of another class>; b = <...>` in front, so a binding form that
+# leaves the PREVIOUS type on a re-bound name is seen.  `stmt` is how the operator is applied:
+#   assign     r = a <op> b            lit-right  r = a <op> <sb>          lit-left   r = <sa> <op> b
+#   augassign  r = a; r <op>= b        (binary operators only, statement-capable forms only)
+
+def _cm_lines():
+    return ["class CM:", "    def __init__(self, v):", "        self.v = v", "    def __enter__(self):",
+            "        return self.v", "    def __exit__(self, *exc):", "        return False"]
+
+
+def _ind(lines, n=1):
+    return [("    " * n) + l for l in lines]
+
+
+_ZERO = {"int": "0", "float": "0.0", "str": "''", "list": "[]", "tuple": "()"}
+
+# statement forms: (sa, sb, ca, cb, body lines) -> program lines
+STMT_FORMS = {
+    "plain": lambda sa, sb, ca, cb, body: ["a = %s" % sa, "b = %s" % sb] + body,
+    "copy": lambda sa, sb, ca, cb, body: ["c = %s" % sa, "d = %s" % sb, "a = c", "b = d"] + body,
+    "chained": lambda sa, sb, ca, cb, body: ["c = a = %s" % sa, "b = d = %s" % sb] + body,
+    "chained-unpack": lambda sa, sb, ca, cb, body: ["t = a, b = %s, %s" % (sa, sb)] + body,
+    "unpack": lambda sa, sb, ca, cb, body: ["a, b = %s, %s" % (sa, sb)] + body,
+    "unpack-paren": lambda sa, sb, ca, cb, body: ["(a, b) = (%s, %s)" % (sa, sb)] + body,
+    "unpack-list-target": lambda sa, sb, ca, cb, body: ["[a, b] = (%s, %s)" % (sa, sb)] + body,
+    "unpack-list-value": lambda sa, sb, ca, cb, body: ["a, b = [%s, %s]" % (sa, sb)] + body,
+    "unpack-var": lambda sa, sb, ca, cb, body: ["t = (%s, %s)" % (sa, sb), "a, b = t"] + body,
+    "swap": lambda sa, sb, ca, cb, body: ["a = %s" % sb, "b = %s" % sa, "a, b = b, a"] + body,
+    "swap-list": lambda sa, sb, ca, cb, body: ["a = %s" % sb, "b = %s" % sa, "[a, b] = b, a"] + body,
+    "rotate3": lambda sa, sb, ca, cb, body: ["b = %s" % sa, "c = %s" % sb, "a = None", "a, b, c = b, c, a"] + body,
+    "rebind-unpack": lambda sa, sb, ca, cb, body: ["a = %s" % sb, "b = %s" % sa, "a, b = %s, %s" % (sa, sb)] + body,
+    "nested-right": lambda sa, sb, ca, cb, body: ["a, (b, c) = %s, (%s, 0)" % (sa, sb)] + body,
+    "nested-left": lambda sa, sb, ca, cb, body: ["(c, a), b = (0, %s), %s" % (sa, sb)] + body,
+    "nested-both": lambda sa, sb, ca, cb, body: ["(a, c), [d, b] = (%s, 0), ('', %s)" % (sa, sb)] + body,
+    "nested-deep": lambda sa, sb, ca, cb, body: ["((a,), (c, (b,))) = ((%s,), (0, (%s,)))" % (sa, sb)] + body,
+    "star-tail": lambda sa, sb, ca, cb, body: ["a, b, *c = %s, %s, 0, ''" % (sa, sb)] + body,
+    "star-mid": lambda sa, sb, ca, cb, body: ["a, *c, b = %s, 0, '', %s" % (sa, sb)] + body,
+    "star-head": lambda sa, sb, ca, cb, body: ["*c, a, b = 0, '', %s, %s" % (sa, sb)] + body,
+    "walrus-stmt": lambda sa, sb, ca, cb, body: ["(a := %s)" % sa, "(b := %s)" % sb] + body,
+    "walrus-if": lambda sa, sb, ca, cb, body: ["if (a := %s) is not None:" % sa, "    b = %s" % sb, "else:",
+                                                "    b = %s" % sb] + body,
+    "return": lambda sa, sb, ca, cb, body: ["def fa():", "    return %s" % sa, "def fb():", "    x = %s" % sb,
+                                             "    return x", "a = fa()", "b = fb()"] + body,
+    "return-tuple": lambda sa, sb, ca, cb, body: ["def f():", "    return %s, %s" % (sa, sb), "a, b = f()"] + body,
+    "subscript-tuple": lambda sa, sb, ca, cb, body: ["t = (%s, %s)" % (sa, sb), "a = t[0]", "b = t[1]"] + body,
+    "subscript-list": lambda sa, sb, ca, cb, body: ["ta = [%s]" % sa, "tb = [%s]" % sb, "a = ta[0]", "b = tb[0]"] + body,
+    "subscript-dict": lambda sa, sb, ca, cb, body: ["d = {'x': %s}" % sa, "e = {'y': %s}" % sb, "a = d['x']",
+                                                     "b = e['y']"] + body,
+    "ifelse": lambda sa, sb, ca, cb, body: ["if len('x') == 1:", "    a = %s" % sa, "else:", "    a = %s" % sa,
+                                             "b = %s if a is not None else %s" % (sb, sb)] + body,
+    "aug-bind": lambda sa, sb, ca, cb, body: ["a = %s" % _ZERO[ca], "b = %s" % _ZERO[cb], "a += %s" % sa,
+                                               "b += %s" % sb] + body,
+    "with-as": lambda sa, sb, ca, cb, body: _cm_lines() + ["with CM(%s) as a, CM(%s) as b:" % (sa, sb), "    pass"] + body,
+    "with-body": lambda sa, sb, ca, cb, body: _cm_lines() + ["with CM(%s) as a, CM(%s) as b:" % (sa, sb)] + _ind(body),
+    "for-list": lambda sa, sb, ca, cb, body: ["for a in [%s]:" % sa, "    for b in [%s]:" % sb] + _ind(body, 2),
+    "for-tuple": lambda sa, sb, ca, cb, body: ["for a in (%s,):" % sa, "    for b in (%s,):" % sb] + _ind(body, 2),
+    "for-after": lambda sa, sb, ca, cb, body: ["for a in [%s]:" % sa, "    pass", "for b in [%s]:" % sb, "    pass"] + body,
+    "for-pairs": lambda sa, sb, ca, cb, body: ["for a, b in [(%s, %s)]:" % (sa, sb)] + _ind(body),
+    "for-pairs-list-target": lambda sa, sb, ca, cb, body: ["for [a, b] in [(%s, %s)]:" % (sa, sb)] + _ind(body),
+    "for-nested-target": lambda sa, sb, ca, cb, body: ["for i, (a, b) in enumerate([(%s, %s)]):" % (sa, sb)] + _ind(body),
+    "for-zip": lambda sa, sb, ca, cb, body: ["for a, b in zip([%s], [%s]):" % (sa, sb)] + _ind(body),
+    "for-enumerate": lambda sa, sb, ca, cb, body: ["for i, a in enumerate([%s]):" % sa,
+                                                    "    for j, b in enumerate([%s]):" % sb] + _ind(body, 2),
+    "for-items": lambda sa, sb, ca, cb, body: ["for b, a in {%s: %s}.items():" % (sb, sa)] + _ind(body),
+    "for-items-rev": lambda sa, sb, ca, cb, body: ["for a, b in {%s: %s}.items():" % (sa, sb)] + _ind(body),
+    "param": lambda sa, sb, ca, cb, body: ["def f(a, b):"] + _ind(body) + ["    return r", "r = f(%s, %s)" % (sa, sb)],
+    "param-vars": lambda sa, sb, ca, cb, body: ["x = %s" % sa, "y = %s" % sb, "def f(a, b):"] + _ind(body) +
+                                               ["    return r", "r = f(x, y)"],
+    "param-unpack-inside": lambda sa, sb, ca, cb, body: ["def f(t):", "    a, b = t"] + _ind(body) +
+                                                        ["    return r", "r = f((%s, %s))" % (sa, sb)],
+    "param-kw": lambda sa, sb, ca, cb, body: ["def f(a, b):"] + _ind(body) + ["    return r", "r = f(b=%s, a=%s)" % (sb, sa)],
+    "param-default": lambda sa, sb, ca, cb, body: ["def f(a, b=%s):" % sb] + _ind(body) + ["    return r", "r = f(%s)" % sa],
+}
+# expression forms: (sa, sb, ca, cb, expression text) -> program lines
+EXPR_FORMS = {
+    "lambda": lambda sa, sb, ca, cb, e: ["f = lambda a, b: " + e, "r = f(%s, %s)" % (sa, sb)],
+    "listcomp": lambda sa, sb, ca, cb, e: ["rs = [%s for a in [%s] for b in [%s]]" % (e, sa, sb), "r = rs[0]"],
+    "listcomp-pairs": lambda sa, sb, ca, cb, e: ["rs = [%s for a, b in [(%s, %s)]]" % (e, sa, sb), "r = rs[0]"],
+    "listcomp-zip": lambda sa, sb, ca, cb, e: ["rs = [%s for a, b in zip([%s], [%s])]" % (e, sa, sb), "r = rs[0]"],
+    "walrus-inline": lambda sa, sb, ca, cb, e: ["r = " + e],      # e is built with (a := sa) / (b := sb) as operands
+}
+BINDING_FORMS = list(STMT_FORMS) + list(EXPR_FORMS)
+STMT_KINDS = ["assign", "lit-right", "lit-left", "augassign"]
+
+# Forms on which the UNCHANGED pedal (f011cb2) breaks C19 and a repair is proposed (proposed_fixes/C19, see
+# notes/C19.md); they are generated only with VERIF_C19_GATED=1 until the two commits are merged - then empty this dict.
+GATED_FORMS = {}    # emptied: /repo commits 4b5ba68 (names after a star) and 48a5530 (walrus) repaired the five formerly gated forms
+_FORMERLY_GATED = {
+    "star-mid": "names after a starred target get the types of the elements right after the leading names",
+    "star-head": "names after a starred target get the types of the elements right after the leading names",
+    "walrus-stmt": "no visit_NamedExpr: a name bound by := is never stored (AnyType, nothing flagged)",
+    "walrus-if": "no visit_NamedExpr",
+    "walrus-inline": "no visit_NamedExpr",
+}
+# Open findings, one record per FAMILY: any failure of these forms (for unpack-list-value: with operands of two
+# different classes) has the signature {"binding": <form>}, whichever kind it is.
+OPEN_FAMILIES = {
+    "param-kw": "keyword arguments are not bound to the parameters they name (AnyType)",
+    "param-default": "a parameter left to its default value is typed AnyType",
+    "unpack-list-value": "a list literal is typed by its first element, so unpacking [3, 'ab'] types both names int",
+}
+
+
+def open_family(form, ca, cb):
+    return form in OPEN_FAMILIES and (form != "unpack-list-value" or ca != cb)
+
+
+def binding_expr(stmt, op, sa, sb, an="a", bn="b"):
+    sym = OPS[op][0]
+    left = sa if stmt == "lit-left" else an
+    right = sb if stmt == "lit-right" else bn
+    return "%s %s %s" % (left, sym, right)
+
+
+def binding_program(form, stale, stmt, op, ca, sa, cb, sb, probe=False):
+    """source of the program, or None when the combination does not exist (augmented comparison, augmented
+    assignment inside an expression form, a gated precondition)"""
+    if stmt == "augassign":
+        if not op.startswith("b:") or form in EXPR_FORMS:
+            return None
+        body = ["r = a", "r %s= b" % OPS[op][0]]
+        expr = None
+    else:
+        if form == "walrus-inline":
+            expr = binding_expr(stmt, op, sa, sb, "(a := %s)" % sa, "(b := %s)" % sb)
+        else:
+            expr = binding_expr(stmt, op, sa, sb)
+        body = ["r = " + expr]
+    if probe:                                         # the same program, but r = the two operands themselves
+        expr, body = "(a, b)", ["r = (a, b)"]
+        if form == "walrus-inline":
+            expr = "((a := %s), (b := %s))" % (sa, sb)
+    lines = []
+    if stale:
+        other = [c for c in CORE if c != ca and c != cb]
+        sc_a, sc_b = (cb, ca) if ca != cb else (other[0], other[1])
+        lines += ["a = %s" % REPS[sc_a][0], "b = %s" % REPS[sc_b][0]]
+    if form in STMT_FORMS:
+        lines += STMT_FORMS[form](sa, sb, ca, cb, body)
+    else:
+        lines += EXPR_FORMS[form](sa, sb, ca, cb, expr)
+    return "\n".join(lines) + "\n"
+
+
+def gated_on():
+    import os
+    return os.environ.get("VERIF_C19_GATED", "") not in ("", "0")
+
+
+def active_binding_forms():
+    return [f for f in BINDING_FORMS if gated_on() or f not in GATED_FORMS]
+
+
+def run_cpython(code):
+    """plain CPython: -> ("ok", value of r) | ("TypeError", message) | ("other", exception class)"""
+    import warnings
+    env = {"__name__": "student"}
+    try:
+        with warnings.catch_warnings():
+            warnings.simplefilter("ignore")           # `3 is b`: SyntaxWarning of the literal spellings
+            compiled = compile(code, "student.py", "exec")
+        exec(compiled, env)
+    except TypeError as e:
+        return ("TypeError", str(e))
+    except Exception as e:  # noqa
+        return ("other", type(e).__name__)
+    if "r" not in env:
+        return ("other", "r-not-bound")
+    return ("ok", env["r"])
+
+
+_PROBES = {}
+
+
+def binding_delivers(form, stale, ca, sa, cb, sb):
+    """generator self-check: does the binding form really leave a == sa and b == sb (same classes) when CPython runs it?"""
+    import ast
+    key = (form, stale, sa, sb)
+    if key not in _PROBES:
+        code = binding_program(form, stale, "assign", "b:add", ca, sa, cb, sb, probe=True)
+        got = run_cpython(code) if code is not None else ("other", "no-program")
+        want = (ast.literal_eval(sa), ast.literal_eval(sb))
+        _PROBES[key] = (got[0] == "ok" and isinstance(got[1], tuple) and len(got[1]) == 2 and got[1] == want and
+                        type(got[1][0]) is type(want[0]) and type(got[1][1]) is type(want[1]))
+    return _PROBES[key]
+
+
+def run_tifa_code(code):
+    """-> dict(success, flagged, result type of r)"""
+    clear_report()
+    contextualize_report(code)
+    try:
+        t = tifa_analysis()
+    except Exception as e:  # noqa
+        return {"success": False, "error": "%s: %s" % (type(e).__name__, e), "code": code}
+    if not t.success:
+        return {"success": False, "error": str(t.error)[:200], "code": code}
+    issues = t.issues.get("incompatible_types", []) if hasattr(t.issues, "get") else []
+    tl = t.top_level_variables
+    return {"success": True, "flagged": len(issues) > 0, "n_issues": len(issues), "code": code,
+            "result": tl["r"].type if "r" in tl else None}
